@@ -29,3 +29,11 @@ Definition star_placer_check (mid : nat) (c : circ) (real : list nat) : bool :=
   match star_placer mid c with Some w => list_eqb w real | None => false end.
 Definition restrict_raises (d : device) (qs : list nat) : bool :=
   match restrict d qs with None => true | Some _ => false end.
+
+(* placers replayed through their models (oracle data: the sampled layouts / matcher answers) *)
+Definition random_placer_check (d : device) (pairs : list (nat * nat)) (samples : list (list nat)) (real : list nat) : bool * bool :=
+  (list_eqb (random_placer d pairs samples) real, forallb (is_perm (length (dnodes d))) samples).
+Definition subgraph_placer_check (d : device) (pairs : list (nat * nat)) (answers : list (bool * list nat)) (real : list nat) : bool * bool :=
+  (match subgraph_placer d pairs answers with Some w => list_eqb w real | None => false end,
+   forallb (fun a => is_perm (length (dnodes d)) (snd a)) (filter fst answers)).
+Definition reverse_traversal_check (c : circ) (real : list nat) : bool := list_eqb (reverse_traversal_placer c) real.
